@@ -2,7 +2,11 @@
 package main
 
 import (
+	"syscall"
+
 	"fmt"
+	"github.com/docker/docker/pkg/reexec"
+	"github.com/openebs/sparse-tools/cli/sfold"
 	"os"
 	"strings"
 	"time"
@@ -204,7 +208,7 @@ func runsFor(prop, tier string) []run {
 		// two leave/re-add cycles leave automatic snapshots between the base and the checkpoint: real cleaner loop, tick by tick
 		cyc := []string{"Reg:0", "Reg:1", "Start:0", "W:0", "Add:1", "Sync:1", "Verify:1", "W:0", "Remove:1", "Restart:1", "Add:1", "Sync:1", "Verify:1", "W:0",
 			"Remove:1", "Restart:1", "Add:1", "Sync:1", "Verify:1", "W:0", "Cleaners"}
-		clean := eb.Cfg{RF: 2, N: 2, Alphabet: []string{"Tick", "TickF", "W0", "DelSnap", "Snap"}, Oracles: []string{"c11", "c02", "c18"}, Drain: true, Real: true,
+		clean := eb.Cfg{RF: 2, N: 2, Alphabet: []string{"Tick", "TickF", "TickK", "W0", "DelSnap", "Snap"}, Oracles: []string{"c11", "c02", "c18"}, Drain: true, Real: true,
 			MaxWrites: 5, MaxSnaps: 1, MaxFaults: 2, InitOps: cyc}
 		// a user snapshot exists and the second replica is being rebuilt (WO): deleteSnapshot must be refused until the
 		// verify promoted it and a checkpoint is recorded
@@ -282,7 +286,25 @@ func runsFor(prop, tier string) []run {
 	return nil
 }
 
+// sfoldChild is what the real sync agent re-executes as "sfold": the real sparse-tools command line, unless the
+// harness asked (through the environment the child inherits) for a child that dies from a signal or exits non-zero
+// before it has copied anything.
+func sfoldChild() {
+	switch os.Getenv("VERIF_SFOLD_FAULT") {
+	case "kill":
+		syscall.Kill(os.Getpid(), syscall.SIGKILL)
+		select {}
+	case "exit1":
+		os.Exit(1)
+	}
+	sfold.Main()
+}
+
 func main() {
+	reexec.Register("sfold", sfoldChild)
+	if reexec.Init() {
+		return
+	}
 	if len(os.Args) < 2 {
 		fmt.Fprintln(os.Stderr, "usage: eb check <prop> | worker | replay <file>")
 		os.Exit(2)
